@@ -806,4 +806,14 @@ void join(handle h)
   assert(managed());
   do_join(g.th[static_cast<size_t>(h)], NULL);
 }
+
+void wait_exit(int idx)
+{
+  if (!managed() || idx < 0 || static_cast<size_t>(idx) >= g.th.size()) return;
+  Th& m = me();
+  m.pend = P_JOIN;          // enabled exactly when the target thread is done; no real join
+  m.ptarget = idx;
+  park();
+  trace(m.idx, K_POINT, "waited", nm('T', idx));
+}
 }  // namespace sched
